@@ -7,6 +7,7 @@
 
 mod boxed_checks;
 mod common;
+mod extra;
 mod fixed;
 mod limb_checks;
 mod pairs;
@@ -57,5 +58,6 @@ fn subchecks(ctx: &Ctx) -> Vec<SubCheck> {
     v.push(SubCheck::new("boxed/cmp_vartime/1..=12", 120_000, boxed_checks::boxed_cmp_vartime_case).tape(120));
     v.push(SubCheck::new("boxed/hash/1..=12", 120_000, boxed_checks::boxed_hash_case).tape(120));
     v.push(SubCheck::new("boxed/select+negate/1..=12", 100_000, boxed_checks::boxed_select_case).tape(120));
+    v.extend(extra::subchecks(ctx));
     v
 }
